@@ -26,3 +26,26 @@ package token
 //@     | && ((a1 == secret && a2 == prevSecret) || (a1 == prevSecret && a2 == secret))
 //@   ensures [second-decides] len(prevSecret) > 0 && e1 != nil ==> result1 == e2 && (e2 == nil ==> result0 == ret(doParseToken, 0, 2))
 //@   ensures [error-means-no-token] result1 != nil ==> result0 == nil
+
+// doParseToken: the bearer token of THIS request is verified with exactly the given secret as HMAC key.
+//@ func (*Parser).doParseToken
+//@   prop C04
+//@   opaque newParser
+//@   ensures [this-request-bearer-header] calls(request.ParseFromRequest) == 1 && arg(request.ParseFromRequest, 0) == r && arg(request.ParseFromRequest, 1) == request.AuthorizationHeaderExtractor && result0 == ret(request.ParseFromRequest, 0) && result1 == ret(request.ParseFromRequest, 1)
+//@ func (*Parser).doParseToken$1
+//@   prop C04
+//@   ensures [key-is-the-secret] result1 == nil && typeis(result0, []byte) && bytes2str(unbox(result0, []byte)) == secret
+// loadCount: the recorded hit count of the secret, 0 when none.
+//@ func (*Parser).loadCount
+//@   prop C04
+//@   requires p != nil
+//@   ensures [looked-up-by-secret] calls(Load) == 1 && unbox(arg(Load, 1), string) == secret
+//@   ensures [none-is-zero] !ret(Load, 1) ==> result == 0
+//@   ensures [recorded] ret(Load, 1) && typeis(ret(Load, 0), ptr(uint64)) && unbox(ret(Load, 0), ptr(uint64)) != nil ==> result == *unbox(ret(Load, 0), ptr(uint64))
+// incrCount: only bookkeeping (which secret to try first); never decides acceptance.
+//@ func (*Parser).incrCount
+//@   prop C04
+//@   opaque Range
+//@   requires p != nil
+//@   ensures [counts-the-secret] calls(Load) == 1 && unbox(arg(Load, 1), string) == secret && (!ret(Load, 1) ==> calls(Store) == 1 && unbox(arg(Store, 1), string) == secret && *unbox(arg(Store, 2), ptr(uint64)) == 1)
+//@   ensures [history-reset-only-after-the-period] (calls(Range) == 1) == (p.resetTime + p.resetDuration < ret(timex.Now))
